@@ -107,8 +107,8 @@ int main(void)
       if (!stralloc_catb(&key,line.s + 1,i - 1)) die_nomem();
       case_lowerb(key.s,key.len);
       if (i >= 2)
-	if (byte_chr(wildchars.s,wildchars.len,line.s[i - 1]) == wildchars.len)
-	  if (!stralloc_append(&wildchars,line.s + i - 1)) die_nomem();
+	if (byte_chr(wildchars.s,wildchars.len,key.s[key.len - 1]) == wildchars.len)
+	  if (!stralloc_append(&wildchars,key.s + key.len - 1)) die_nomem();
     }
     else {
       if (!stralloc_catb(&key,line.s + 1,i - 1)) die_nomem();
